@@ -211,3 +211,171 @@ Proof.
   - cbn [res_bind] in H. destruct (_ <? _) in H; [discriminate|]. cbn [res_bind] in H.
     destruct (_ <? _) in H; [discriminate|]. inversion H. eexists; reflexivity.
 Qed.
+
+(* ---------------- PES header and writePESData: bytes counted = bytes written ---------------- *)
+
+Definition no_err {A} (r : res A) : Prop := forall c, r <> Err c.
+Lemma no_err_ok {A} (a : A) : no_err (Ok a). Proof. intros c; discriminate. Qed.
+Lemma no_err_panic {A} : no_err (@Panic A). Proof. intros c; discriminate. Qed.
+Lemma no_err_bind {A B} (r : res A) (f : A -> res B) : no_err r -> (forall a, no_err (f a)) -> no_err (res_bind r f).
+Proof. intros Hr Hf c. destruct r; cbn [res_bind]; [apply Hf|exfalso; eapply Hr; reflexivity|discriminate]. Qed.
+Lemma no_err_map {A B} (r : res A) (f : A -> B) : no_err r -> no_err (res_map f r).
+Proof. intros Hr c. destruct r; cbn [res_map]; try discriminate. intros H; inversion H; subst. eapply Hr; reflexivity. Qed.
+Lemma no_err_pneed {A} (o : option A) : no_err (pneed o). Proof. destruct o; intros c; discriminate. Qed.
+Lemma no_err_need {A} (o : option A) : no_err (need o). Proof. destruct o; intros c; discriminate. Qed.
+#[global] Hint Resolve no_err_ok no_err_panic no_err_pneed no_err_need : noerr.
+
+Lemma ibz_repeat_nat k v : ibz (repeat (wu8 v) k) = 8 * Z.of_nat k.
+Proof. induction k as [|k IH]; [reflexivity|]. cbn [repeat]. rewrite ibz_cons, IH. unfold wu8. rewrite ibz_bits. lia. Qed.
+
+Lemma enc_dsm_trick_mode_bits m : ibz (enc_dsm_trick_mode m) = 8.
+Proof.
+  unfold enc_dsm_trick_mode. rewrite ibz_cons, ibz_bits.
+  destruct (orb _ _); [ibz_simpl; reflexivity|]. destruct (_ =? _); [ibz_simpl; reflexivity|].
+  destruct (orb _ _); ibz_simpl; reflexivity.
+Qed.
+
+Lemma enc_opt_fixed_bits h : ibz (enc_opt_fixed h) = 24.
+Proof. unfold enc_opt_fixed. ibz_simpl. reflexivity. Qed.
+
+Lemma enc_ptsdts_bits h its n : enc_ptsdts h = Ok (its, n) -> ibz its = 8 * n.
+Proof.
+  unfold enc_ptsdts.
+  destruct (PESOptionalHeader_PTSDTSIndicator h =? C_PTSDTSIndicatorOnlyPTS).
+  - destruct (PESOptionalHeader_PTS h) as [p|]; cbn [pneed res_map res_bind]; [|discriminate].
+    destruct (PESOptionalHeader_PTSDTSIndicator h =? C_PTSDTSIndicatorBothPresent).
+    + destruct (PESOptionalHeader_DTS h) as [d|]; cbn [pneed res_bind]; [|discriminate].
+      intros HH; okinj HH. ibz_simpl. rewrite !enc_pts_or_dts_bits. unfold C_ptsOrDTSByteLength. lia.
+    + cbn [res_bind]. intros HH; okinj HH. ibz_simpl. rewrite !enc_pts_or_dts_bits. unfold C_ptsOrDTSByteLength. lia.
+  - cbn [res_bind].
+    destruct (PESOptionalHeader_PTSDTSIndicator h =? C_PTSDTSIndicatorBothPresent).
+    + destruct (PESOptionalHeader_PTS h) as [p|]; cbn [pneed res_bind]; [|discriminate].
+      destruct (PESOptionalHeader_DTS h) as [d|]; cbn [pneed res_bind]; [|discriminate].
+      intros HH; okinj HH. ibz_simpl. rewrite !enc_pts_or_dts_bits. unfold C_ptsOrDTSByteLength. lia.
+    + cbn [res_bind]. intros HH; okinj HH. reflexivity.
+Qed.
+
+Lemma enc_ptsdts_no_err h : no_err (enc_ptsdts h).
+Proof.
+  unfold enc_ptsdts. apply no_err_bind.
+  - destruct (_ =? _); auto with noerr. apply no_err_map; auto with noerr.
+  - intros [i1 n1]. apply no_err_bind.
+    + destruct (_ =? _); auto with noerr. apply no_err_bind; auto with noerr. intros p. apply no_err_bind; auto with noerr.
+    + intros [i2 n2]. auto with noerr.
+Qed.
+
+Lemma enc_escr_opt_bits h its n : enc_escr_opt h = Ok (its, n) -> ibz its = 8 * n.
+Proof.
+  unfold enc_escr_opt. destruct (PESOptionalHeader_HasESCR h).
+  - destruct (PESOptionalHeader_ESCR h); cbn [pneed res_map]; [|discriminate].
+    intros HH; okinj HH. rewrite enc_escr_bits. reflexivity.
+  - intros HH; okinj HH. reflexivity.
+Qed.
+Lemma enc_escr_opt_no_err h : no_err (enc_escr_opt h).
+Proof. unfold enc_escr_opt. destruct (_ : bool); auto with noerr. apply no_err_map; auto with noerr. Qed.
+
+Lemma enc_es_rate_bits h : ibz (fst (enc_es_rate h)) = 8 * snd (enc_es_rate h).
+Proof. unfold enc_es_rate. destruct (PESOptionalHeader_HasESRate h); cbn [fst snd]; ibz_simpl; reflexivity. Qed.
+
+Lemma enc_dsm_opt_bits h its n : enc_dsm_opt h = Ok (its, n) -> ibz its = 8 * n.
+Proof.
+  unfold enc_dsm_opt. destruct (PESOptionalHeader_HasDSMTrickMode h).
+  - destruct (PESOptionalHeader_DSMTrickMode h); cbn [pneed res_map]; [|discriminate].
+    intros HH; okinj HH. rewrite enc_dsm_trick_mode_bits. reflexivity.
+  - intros HH; okinj HH. reflexivity.
+Qed.
+Lemma enc_dsm_opt_no_err h : no_err (enc_dsm_opt h).
+Proof. unfold enc_dsm_opt. destruct (_ : bool); auto with noerr. apply no_err_map; auto with noerr. Qed.
+
+Lemma enc_aci_bits h : ibz (fst (enc_aci h)) = 8 * snd (enc_aci h).
+Proof. unfold enc_aci. destruct (PESOptionalHeader_HasAdditionalCopyInfo h); cbn [fst snd]; ibz_simpl; reflexivity. Qed.
+
+Lemma enc_private_data_bits pd : ibz (enc_private_data pd) = 128.
+Proof.
+  unfold enc_private_data. destruct (16 <=? Z.of_nat (length pd)) eqn:E.
+  - ibz_simpl. rewrite firstn_length. lia.
+  - rewrite ibz_cons, ibz_bytes, ibz_repeat_nat. lia.
+Qed.
+
+Lemma enc_pes_extension_bits h : ibz (fst (enc_pes_extension h)) = 8 * snd (enc_pes_extension h).
+Proof.
+  unfold enc_pes_extension. destruct (PESOptionalHeader_HasExtension h); [|reflexivity].
+  cbn [fst snd].
+  destruct (PESOptionalHeader_HasPrivateData h), (PESOptionalHeader_HasProgramPacketSequenceCounter h),
+    (PESOptionalHeader_HasPSTDBuffer h), (PESOptionalHeader_HasExtension2 h); cbn [fst snd];
+    ibz_simpl; rewrite ?enc_private_data_bits; lia.
+Qed.
+
+Lemma enc_pes_optional_header_bits h its n : enc_pes_optional_header h = Ok (its, n) -> ibz its = 8 * n.
+Proof.
+  unfold enc_pes_optional_header.
+  destruct (enc_ptsdts h) as [[ts n1]| |] eqn:E1; cbn [res_bind]; try discriminate.
+  destruct (enc_escr_opt h) as [[es n2]| |] eqn:E2; cbn [res_bind]; try discriminate.
+  pose proof (enc_es_rate_bits h) as E3. destruct (enc_es_rate h) as [er n3]. cbn [fst snd] in E3.
+  destruct (enc_dsm_opt h) as [[dsm n4]| |] eqn:E4; cbn [res_bind]; try discriminate.
+  pose proof (enc_aci_bits h) as E5. destruct (enc_aci h) as [aci n5]. cbn [fst snd] in E5.
+  pose proof (enc_pes_extension_bits h) as E6. destruct (enc_pes_extension h) as [ext n6]. cbn [fst snd] in E6.
+  intros HH; okinj HH.
+  apply enc_ptsdts_bits in E1. apply enc_escr_opt_bits in E2. apply enc_dsm_opt_bits in E4.
+  rewrite !ibz_app, enc_opt_fixed_bits. lia.
+Qed.
+
+Lemma enc_pes_optional_header_no_err h : no_err (enc_pes_optional_header h).
+Proof.
+  unfold enc_pes_optional_header. apply no_err_bind; [apply enc_ptsdts_no_err|]. intros [ts n1].
+  apply no_err_bind; [apply enc_escr_opt_no_err|]. intros [es n2].
+  destruct (enc_es_rate h). apply no_err_bind; [apply enc_dsm_opt_no_err|]. intros [dsm n4].
+  destruct (enc_aci h), (enc_pes_extension h). auto with noerr.
+Qed.
+
+Lemma enc_pes_header_bits h plen its n : enc_pes_header h plen = Ok (its, n) -> ibz its = 8 * n /\ C_pesHeaderLength <= n.
+Proof.
+  unfold enc_pes_header. destruct (hasPESOptionalHeader (PESHeader_StreamID h)).
+  - destruct (PESHeader_OptionalHeader h) as [oh|].
+    + destruct (enc_pes_optional_header oh) as [[oi k]| |] eqn:E; cbn [res_bind]; try discriminate.
+      intros HH; okinj HH. apply enc_pes_optional_header_bits in E.
+      assert (0 <= k) by (unfold ibz in E; lia).
+      split; [|lia]. ibz_simpl. rewrite E. unfold C_pesHeaderLength. lia.
+    + cbn [res_bind]. intros HH; okinj HH. split; [|lia]. ibz_simpl. unfold C_pesHeaderLength. lia.
+  - intros HH; okinj HH. split; [|lia]. ibz_simpl. unfold C_pesHeaderLength. lia.
+Qed.
+
+Lemma enc_pes_header_no_err h plen : no_err (enc_pes_header h plen).
+Proof.
+  unfold enc_pes_header. destruct (hasPESOptionalHeader _); auto with noerr.
+  apply no_err_bind.
+  - destruct (PESHeader_OptionalHeader h); auto with noerr. apply enc_pes_optional_header_no_err.
+  - intros [oi n]. auto with noerr.
+Qed.
+
+(* writePESData: what it reports is what it writes, it fits, and it never returns an error *)
+Lemma write_pes_data_ok h left ps avail its ntot np : write_pes_data h left ps avail = Ok (its, ntot, np) ->
+  ibz its = 8 * ntot /\ 0 <= np <= Z.of_nat (length left) /\ np <= ntot <= avail /\
+  (ps = false -> ntot = np /\ (np = avail \/ np = Z.of_nat (length left))) /\
+  (ps = true -> C_pesHeaderLength <= ntot - np) /\
+  (ntot = avail \/ np = Z.of_nat (length left)).
+Proof.
+  unfold write_pes_data.
+  set (hd := if ps then enc_pes_header h (Z.of_nat (length left)) else Ok ([], 0)).
+  assert (Hhd : forall hi n, hd = Ok (hi, n) -> ibz hi = 8 * n /\ (ps = false -> n = 0) /\ (ps = true -> C_pesHeaderLength <= n) /\ 0 <= n).
+  { subst hd. destruct ps.
+    - intros hi n E. apply enc_pes_header_bits in E. destruct E as [E1 E2]. unfold C_pesHeaderLength in *. repeat split; try lia; discriminate.
+    - intros hi n E. okinj E. repeat split; try reflexivity; try lia; discriminate. }
+  destruct hd as [[hi n]| |]; cbn [res_bind]; try discriminate.
+  destruct (Hhd _ _ eq_refl) as (Hb & Hf & Ht & Hn).
+  set (plen := Z.of_nat (length left)).
+  destruct (avail - n >? plen) eqn:E1.
+  - destruct (plen <? 0) eqn:E2; [discriminate|]. intros HH. apply ok_inj in HH.
+    inversion HH; subst; clear HH. rewrite ibz_app, Hb. ibz_simpl. rewrite firstn_length. fold plen.
+    repeat split; try lia; intros ->; specialize (Hf eq_refl); lia.
+  - destruct (avail - n <? 0) eqn:E2; [discriminate|]. intros HH. apply ok_inj in HH.
+    inversion HH; subst; clear HH. rewrite ibz_app, Hb. ibz_simpl. rewrite firstn_length. fold plen.
+    repeat split; try lia; intros ->; specialize (Hf eq_refl); lia.
+Qed.
+
+Lemma write_pes_data_no_err h left ps avail : no_err (write_pes_data h left ps avail).
+Proof.
+  unfold write_pes_data. apply no_err_bind.
+  - destruct ps; auto with noerr. apply enc_pes_header_no_err.
+  - intros [hi n]. cbv zeta. destruct (_ <? 0); auto with noerr.
+Qed.
